@@ -30,7 +30,9 @@
 #ifndef N
 #define N 12
 #endif
+#ifndef MAXR
 #define MAXR (N / 3 + 1)
+#endif
 #define AMAX (N + 1)
 
 unsigned char in[N + 1];
@@ -58,7 +60,7 @@ static int g_flagerr, daemon_fail_calls;
 static unsigned int nwr;
 static unsigned int mlen; static int msg_bad;
 static int from_bad, to_bad; static unsigned int n_to;
-static int bad_addr;
+static int bad_addr, too_long;
 static char *close_result = "?";
 /* reply stream: netstring recogniser */
 static int rs, rbad, rfirst; static unsigned long rval; static unsigned int rdigits, rleft, nrep; static char rclass[2];
@@ -271,7 +273,8 @@ void vf__exit(int status)
   if (R.status == 0 && status == 0 && n_open == 1 && inpos == N) WITNESS("disconnect_after_open");
   if (R.status == 1 && n_open == 1 && !open_fails) WITNESS("malformed_after_open");
   if (R.status == 2 && res_trouble) WITNESS("resources");
-  if (R.status == 2 && !res_trouble && bad_addr) WITNESS("nul_in_address");
+  if (R.status == 2 && !res_trouble && bad_addr && !too_long) WITNESS("nul_in_address");
+  if (R.status == 2 && !res_trouble && too_long) WITNESS("address_too_long");
   if (R.status == 2 && !res_trouble && !queued && rclass[0] == 'D' && !bad_addr) WITNESS("queue_permanent");
   if (R.status == 2 && !res_trouble && !queued && rclass[0] == 'Z') WITNESS("queue_temporary");
   if (queued && R.nr >= 1) WITNESS("accepted_K_with_recipient");
@@ -294,8 +297,10 @@ void vmain(void)
 #endif
   ref_parse();
   if (R.status == 2) {
-    bad_addr = has_nul(R.soff, R.slen) || R.slen >= 1000;
-    for (i = 0; i < MAXR; ++i) { if (i >= R.nr) break; if (has_nul(R.roff[i], R.rlen[i]) || R.rlen[i] >= 1000) bad_addr = 1; }
+    too_long = R.slen >= 1000;
+    for (i = 0; i < MAXR; ++i) { if (i >= R.nr) break; if (R.rlen[i] >= 1000) too_long = 1; }
+    bad_addr = too_long || has_nul(R.soff, R.slen);
+    for (i = 0; i < MAXR; ++i) { if (i >= R.nr) break; if (has_nul(R.roff[i], R.rlen[i])) bad_addr = 1; }
   }
   qmqpd_main();
   CHECK(0, "qmail-qmqpd leaves only through _exit");
